@@ -3,8 +3,9 @@ from . import crashwl as W
 
 PARAM_SECTIONS = ["wal"]
 from . import e2gen as G
+from . import crashproto as P
 
-MODEL_TARGETS = ["theories/Spec/Machine.vo"]
+MODEL_TARGETS = ["theories/Spec/Machine.vo", "theories/Crash/Proto.vo"]
 TRUSTED = __import__("vlib.c02", fromlist=["TRUSTED"]).TRUSTED + [
     "clean-reopen part: API histories with reopen placed anywhere, compared with the specification machine (reopen = identity on committed data)"]
 ASSUMPTIONS = __import__("vlib.c02", fromlist=["ASSUMPTIONS"]).ASSUMPTIONS
@@ -25,13 +26,16 @@ def nontrivial(lines, exp):
 
 def explore(ctx):
     r = G.explore_profiles(ctx, "C07", PROFILES, nontrivial, n_quick=150, n_thorough=2000)
-    c = W.explore(dict(ctx, seed=ctx["seed"] + 2000), "C07", {"open-failed"}, n_quick=8, n_thorough=60)
+    c = W.explore(dict(ctx, seed=ctx["seed"] + 2000), "C07", {"open-failed"}, n_quick=8, n_thorough=60, proto=P, proto_gen2=2 if ctx["tier"] == "quick" else 6)
+    c = P.merge(c, ctx, "C07")
+    r["disagreements"] = r.get("disagreements", []) + c["disagreements"]
     r["violations"] += [(d, t) for (d, t, _) in c["violations"]][:3]
     cov, cc = r["coverage"], c["coverage"]
     cov["evaluations"] += cc["evaluations"]
     cov["distinct_nontrivial"] += cc["distinct_nontrivial"]
     cov["crash_images"] = cc["images"]
     cov["crash_verdicts"] = cc["verdicts"]
+    cov["protocol_model"] = cc.get("protocol_model", {})
     cov["rule"] = ("(1) API histories with clean reopen anywhere over level shapes produced by flush and per-level compaction (several tables on "
                    "deep levels, levels emptied by tombstone compaction), compared with the specification machine; (2) " + cc["rule"] +
                    " — here the verdict is that every image opens (twice) without error")
